@@ -29,6 +29,7 @@ def run(ctx):
     c11.r114(ctx)
     c11.r116(ctx)
     r38(ctx, core)
+    r39(ctx)
     m = ctx.repo['cencoding']
     # R3.4: only the decoders matter for reading foreign files
     saved = c11.LOOPS
@@ -272,3 +273,31 @@ def r38(ctx, core):
     dd = [s for s in iter_child_stmts(f.body) if isinstance(s, ast.Assign) and norm(s.targets[0]) == 'd']
     ctx.ob('R3.8', 'core.read_col:d-is-this-pages-encoding',
            len(dd) == 1 and norm(dd[0].value).startswith('ph.data_page_header.encoding in ['), norm(dd[0])[:100] if dd else '', core.loc(f))
+
+
+def r39(ctx, rule='R3.9'):
+    """scope discipline of the page readers: counts come from the page header, never from the chunk metadata"""
+    core = ctx.repo['core']
+    n = 0
+    for q, chunk_names in (('read_data_page', ('metadata',)), ('read_data_page_v2', ('cmd',)), ('read_def', ('metadata',)),
+                           ('read_rep', ('metadata',))):
+        f = core.func(q)
+        bad = []
+        for a in ast.walk(f):
+            if isinstance(a, ast.Attribute) and isinstance(a.ctx, ast.Load) and a.attr in ('num_values', 'total_compressed_size',
+                                                                                         'total_uncompressed_size'):
+                n += 1
+                if norm(a.value) in chunk_names:
+                    bad.append(norm(a))
+        # the two disabled arms of read_def (`if False and ...`) mention metadata.num_values by design
+        if q == 'read_def':
+            bad = [b for b in bad if not any(isinstance(i, ast.If) and norm(i.test).startswith('False and') and b in norm(i.test)
+                                             for i in ast.walk(f))]
+        ctx.ob(rule, 'core.%s:value-counts-come-from-the-page-header' % q, not bad,
+               'chunk-level quantities used inside the per-page reader: %s (a chunk may hold many pages)' % (bad or 'none'),
+               core.loc(f))
+    ctx.floor(rule, 'count loads in the page readers', n, 8)
+    f = core.func('read_data_page')
+    sk = [c for c in ast.walk(f) if isinstance(c, ast.Call) and callee(c) == 'skip_definition_bytes']
+    ctx.ob(rule, 'core.read_data_page:definition-bytes-skipped-for-this-pages-value-count',
+           len(sk) == 1 and [norm(a) for a in sk[0].args] == ['io_obj', 'daph.num_values'], norm(sk[0]) if sk else '', core.loc(f))
